@@ -640,3 +640,30 @@ func (n *simNet) gc() {
 	}
 	n.conns = keep
 }
+
+// releaseNewest releases everything pending on the most recently dialled live
+// connection between two hosts (in either direction), leaving older ones alone.
+func (n *simNet) releaseNewest(a, b string) int {
+	n.mu.Lock()
+	defer n.mu.Unlock()
+	var newest *simConn
+	for _, c := range n.conns {
+		if !((c.from == a && c.to == b) || (c.from == b && c.to == a)) {
+			continue
+		}
+		if c.h[0].reset {
+			continue
+		}
+		if newest == nil || c.id > newest.id {
+			newest = c
+		}
+	}
+	if newest == nil {
+		return 0
+	}
+	total := 0
+	for _, h := range newest.h {
+		total += n.releaseLocked(h, len(h.pending))
+	}
+	return total
+}
